@@ -90,3 +90,37 @@ func verifSortedGroupKeys(m map[string][]*SiteConfig) []string {
 }
 
 var _ = fmt.Sprintf
+
+func init() { generators = append(generators, genProxyRand) }
+
+// The random and least_conn policies draw from math/rand's global source,
+// which other goroutines share: route the draw through a hook the simulator
+// can feed from the tape (nil hook = original behaviour).
+func genProxyRand(repo, out string, m map[string]string) error {
+	if err := rewriteFile(repo, out, m, "proxyrand", "caskethttp/proxy/policy.go", []repl{{old: "rand.Int()", new: "verifRandInt()"}}); err != nil {
+		return err
+	}
+	if !applied["proxyrand"] {
+		delete(m, filepath.Join(repo, "caskethttp/proxy/policy.go"))
+		return nil
+	}
+	p := m[filepath.Join(repo, "caskethttp/proxy/policy.go")]
+	b, _ := readFile(p)
+	writeFile(p, string(b)+"\nvar _ = rand.Int\n")
+	return shim(repo, out, m, "caskethttp/proxy/zz_verif_rand.go", `//go:build verif
+
+package proxy
+
+import "math/rand"
+
+// VerifRandInt, when set, replaces rand.Int() in the policies.
+var VerifRandInt func() int
+
+func verifRandInt() int {
+	if VerifRandInt != nil {
+		return VerifRandInt()
+	}
+	return rand.Int()
+}
+`)
+}
